@@ -72,3 +72,64 @@ STT (ARM, EM_ARM) STT (SPARC, EM_SPARC) STT (PARISC, EM_PARISC) STT (MIPS, EM_MI
 VP_HARNESS (c18_stb_NONE) { check_family (elfsym_stb_dom (EM_NONE), "STB", c18_STB_NONE, c18_none); }
 STB (ARM, EM_ARM) STB (SPARC, EM_SPARC) STB (PARISC, EM_PARISC) STB (MIPS, EM_MIPS) STB (X86_64, EM_X86_64)
 VP_HARNESS (c18_stv) { check_family (elfsym_stv_dom (), "STV", c18_STV_NONE, c18_none); }
+
+// ---- machine-specific codes never equal another machine's; common codes are the same constant for every machine
+static inline int
+em_of (unsigned i)
+{
+  switch (i)
+    {
+    case 0: return EM_ARM;
+    case 1: return EM_SPARC;
+    case 2: return EM_PARISC;
+    case 3: return EM_MIPS;
+    default: return EM_X86_64;
+    }
+}
+
+static inline const struct c18_ent *
+arch_table (bool stt, unsigned i)
+{
+  switch (i)
+    {
+    case 0: return stt ? c18_STT_ARM : c18_STB_ARM;
+    case 1: return stt ? c18_STT_SPARC : c18_STB_SPARC;
+    case 2: return stt ? c18_STT_PARISC : c18_STB_PARISC;
+    case 3: return stt ? c18_STT_MIPS : c18_STB_MIPS;
+    default: return stt ? c18_STT_X86_64 : c18_STB_X86_64;
+    }
+}
+
+// NAMED: elf.h names this code for at least one of the two machines (a code that neither machine names is an
+// anonymous LOPROC+n on both sides; the property asks nothing about those)
+static inline void
+cross (constant_dom const &da, constant_dom const &db, uint64_t code, bool named, unsigned loos)
+{
+  constant a {code, &da}, b {code, &db};
+  if (named)
+    {
+      vp_assert (a != b && !(a == b), "a code that elf.h names for one machine is not equal to the same code of another machine");
+      vp_assert ((a < b) != (b < a), "and the two are strictly ordered one way");
+    }
+  else if (code < loos)
+    vp_assert (a == b && !(a != b) && !(a < b) && !(b < a), "a common code is the same constant whichever machine's file it came from");
+}
+
+VP_HARNESS (c18_cross_machine)
+{
+  // scenario = ordered pair of different machines (20); the code is symbolic
+  uint64_t lo = vp_range_lo (), hi = vp_range_hi ();
+  if (hi > 25) hi = 25;
+  uint64_t scen = vp_nondet_u64 ();
+  vp_assume (scen >= lo && scen < hi);
+  uint64_t code = vp_nondet_u64 ();
+  for (uint64_t s = lo; s < hi; ++s)
+    if (scen == s && s % 5 != s / 5)
+      {
+        int ma = em_of (s % 5), mb = em_of (s / 5);
+        bool stt_named = code < 16 && (lookup (arch_table (true, s % 5), (int) code) != nullptr || lookup (arch_table (true, s / 5), (int) code) != nullptr);
+        bool stb_named = code < 16 && (lookup (arch_table (false, s % 5), (int) code) != nullptr || lookup (arch_table (false, s / 5), (int) code) != nullptr);
+        cross (elfsym_stt_dom (ma), elfsym_stt_dom (mb), code, stt_named, STT_LOOS);
+        cross (elfsym_stb_dom (ma), elfsym_stb_dom (mb), code, stb_named, STB_LOOS);
+      }
+}
